@@ -44,7 +44,10 @@ PidonRes(c, net, fids, i, j) ==
       [] c.res = "u_g" -> <<A("u") - A("g")>>
       [] c.res = "echo" -> <<2 * A("u") + 3 * A("t") + 5 * A("f") + 7 * A("g")>>
       [] c.res = "vec" -> <<A("u") - A("f"), A("u") + A("t")>>
-PidonNeeds(res) == CASE res = "u_f" -> {"u", "f"} [] res = "u_g" -> {"u", "g"} [] res = "echo" -> {"u", "t", "f", "g"} [] res = "vec" -> {"u", "f", "t"}
+      \* du/dt - f : the networks are affine in t (identity activations), so du/dt of function k is Net[k][2] - Net[k][1];
+      \* every function has its OWN coordinates to differentiate by
+      [] c.res = "dut" -> <<(net[c.mid][fids[i]][2] - net[c.mid][fids[i]][1]) - A("f")>>
+PidonNeeds(res) == CASE res = "u_f" -> {"u", "f"} [] res = "u_g" -> {"u", "g"} [] res = "echo" -> {"u", "t", "f", "g"} [] res = "vec" -> {"u", "f", "t"} [] res = "dut" -> {"u", "t", "f"}
 \* (number of functions * number of points) * loss
 PidonLossTimesN(c, net, fids) ==
     SumS([q \in 1..(Len(fids) * Len(c.pts)) |->
